@@ -101,6 +101,16 @@ fn unbound_var() -> Term {
     XVar { span: span(), var: "zz_unbound".into(), ty: None, chi: None }.into()
 }
 
+/// `goto` and `exit` check at ANY expected type (they never return): with such a receiver / scrutinee
+/// a foreign destructor or foreign clauses are not certainly ill-typed.
+fn any_type_term(t: &Term) -> bool {
+    match t {
+        Term::Goto(_) | Term::Exit(_) => true,
+        Term::Paren(p) => any_type_term(&p.inner),
+        _ => false,
+    }
+}
+
 fn last_var_arg(args: &[Term]) -> Option<String> {
     args.iter().rev().find_map(|a| if let Term::XVar(v) = a { Some(v.var.clone()) } else { None })
 }
@@ -270,7 +280,7 @@ fn apply(t: &mut Term, class: Class) -> bool {
             c.id = if c.id == "Nil" { "TwNil".into() } else { "TwCons".into() };
             true
         }
-        (Class::ForeignClauses, Term::Case(c)) if !c.clauses.is_empty() && c.clauses.iter().all(|cl| cl.xtor == "Nil" || cl.xtor == "Cons") => {
+        (Class::ForeignClauses, Term::Case(c)) if !c.clauses.is_empty() && !any_type_term(&c.scrutinee) && c.clauses.iter().all(|cl| cl.xtor == "Nil" || cl.xtor == "Cons") => {
             for cl in &mut c.clauses {
                 cl.xtor = if cl.xtor == "Nil" { "TwNil".into() } else { "TwCons".into() };
             }
@@ -280,7 +290,7 @@ fn apply(t: &mut Term, class: Class) -> bool {
             n.clauses[0].xtor = "twap".into();
             true
         }
-        (Class::ForeignDtor, Term::Destructor(d)) if d.id == "ap" => {
+        (Class::ForeignDtor, Term::Destructor(d)) if d.id == "ap" && !any_type_term(&d.scrutinee) => {
             d.id = "twap".into();
             true
         }
